@@ -289,29 +289,9 @@ def _masters(ctx):
 
 
 def _fea_font(ctx):
-    w = ctx.world if ctx is not None else {}
-    if "fea_font" not in w:
-        import io
-        from fontTools.ttLib import TTFont
+    from props import c16_pipes
 
-        from fontTools.fontBuilder import FontBuilder
-
-        fb = FontBuilder(1000, isTTF=True)
-        names = [".notdef"] + [chr(c) for c in range(ord("a"), ord("z") + 1)] + [chr(c) for c in range(ord("A"), ord("Z") + 1)] + ["zero", "one", "two", "three", "four", "five", "six", "seven", "eight", "nine", "f_f", "f_i", "c_t", "a.alt", "acute", "grave", "cedilla", "space"]
-        fb.setupGlyphOrder(names)
-        fb.setupCharacterMap({ord(n): n for n in names if len(n) == 1})
-        from fontTools.ttLib.tables._g_l_y_f import Glyph
-
-        fb.setupGlyf({n: Glyph() for n in names})
-        fb.setupHorizontalMetrics({n: (500, 0) for n in names})
-        fb.setupHorizontalHeader()
-        fb.setupNameTable({"familyName": "V", "styleName": "R"})
-        fb.setupOS2()
-        fb.setupPost()
-        b = io.BytesIO()
-        fb.font.save(b)
-        w["fea_font"] = b.getvalue()
-    return w["fea_font"]
+    return c16_pipes.fea_font()
 
 
 def _copytree(src, dst):
